@@ -47,6 +47,7 @@ type Engine struct {
 	cellinvs    []*CellInv
 	tables      []*TableDecl
 	lemmas      []*Lemma
+	unverified  []string
 	typeinvs   []*CellInv
 	globalinvs []*CellInv
 	specDefs   []*SpecDef
